@@ -58,7 +58,7 @@ ROLE_OF_PARAM = {
     'gradient': {'PARAM:gradient', 'PARAM:calculate_gradient'},
     'aggregation': {'PARAM:aggregation'},
     'formulas': {'SIGS'},
-    'formula': {'SIG', 'SIG_LOGLIKE'},
+    'formula': {'?SIG', 'SIG_LOGLIKE'},  # ?SIG: the signature of a formula that is neither .log_like nor .weight of the object
     'loglikeFormulas': {'SIG_LOGLIKE'},
     'weightFormulas': {'SIG_WEIGHT'},
     'nbrOfThreads': {'THREADS'},
@@ -71,6 +71,9 @@ ROLE_OF_PARAM = {
     'md': {'MISSING'},
     'draws': {'DRAWS'},
 }
+
+#: parameter names the slots are described by: such a parameter is a role of its own and is not traced to the call sites
+PARAM_ROLES = {r for v in ROLE_OF_PARAM.values() for r in v if r.startswith('PARAM:')}
 
 
 def check_reader_table(ctx: Ctx, rule: str) -> None:
@@ -113,13 +116,129 @@ class RoleFinder:
                                 out.append((f, n.value))
         return out
 
-    def role(self, expr: ast.expr, f: FuncInfo, depth: int = 0) -> str:
+    def _origins(self, expr: ast.expr, f: FuncInfo) -> list[ast.expr]:
+        """the expressions a local name (or an attribute of the object assigned earlier in the same function) stands for at
+        the place where it is read: plain copies followed backwards along the reaching definitions"""
         cfg = cfg_of(f.node)
-        origins = cfg.origins(expr) if isinstance(expr, ast.Name) else [expr]
+        if isinstance(expr, ast.Name):
+            at = cfg.node_of(expr)
+            ds = cfg.reaching(at, expr.id) if at is not None else []
+            keep = [x for x in ds if not self._contradicted(cfg, f.node, x, at)]
+            if keep and len(keep) < len(ds) and all(x.kind == 'assign' and x.value is not None for x in keep):
+                # `if t: v = A else: v = B` ... `if t: use(v)`: the definition made under the opposite outcome of the same test is not what is read
+                out: list[ast.expr] = []
+                for x in keep:
+                    out += cfg.origins(x.value, x.node) if isinstance(x.value, ast.Name) else [x.value]
+                return out
+            return cfg.origins(expr)
+        d = dotted(expr) if isinstance(expr, ast.Attribute) else None
+        at = cfg.node_of(expr)
+        if d and d.startswith('self.') and d.count('.') == 1 and at is not None:
+            ds = cfg.reaching(at, d)
+            if ds and all(x.kind == 'assign' and x.value is not None for x in ds):
+                out: list[ast.expr] = []
+                for x in ds:
+                    out += cfg.origins(x.value, x.node) if isinstance(x.value, ast.Name) else [x.value]
+                return out
+        return [expr]
+
+    @staticmethod
+    def _branches(func: ast.AST) -> dict[int, tuple]:
+        """id(statement) -> the (if statement, outcome of its test) pairs the statement is executed under"""
+        c = getattr(func, '_verif_branches', None)
+        if c is not None:
+            return c
+        out: dict[int, tuple] = {}
+
+        def rec(stmts, ctx_):
+            for st in stmts:
+                out[id(st)] = ctx_
+                if isinstance(st, (ast.FunctionDef, ast.AsyncFunctionDef, ast.ClassDef)):
+                    continue
+                if isinstance(st, ast.If):
+                    rec(st.body, ctx_ + ((st, True),))
+                    rec(st.orelse, ctx_ + ((st, False),))
+                    continue
+                for field in ('body', 'orelse', 'finalbody'):
+                    v = getattr(st, field, None)
+                    if isinstance(v, list) and v and isinstance(v[0], ast.stmt):
+                        rec(v, ctx_)
+                for h in getattr(st, 'handlers', []) or []:
+                    rec(h.body, ctx_)
+
+        rec(func.body, ())
+        try:
+            func._verif_branches = out
+        except Exception:  # noqa
+            pass
+        return out
+
+    def _contradicted(self, cfg, func: ast.AST, d, at: int) -> bool:
+        """the definition d is made under one outcome of a test and the read at node `at` happens under the opposite outcome of
+        the same test (two `if` statements with the same test over plain locals), while nothing the test reads is assigned
+        between the two on a path that carries d to the read"""
+        from .cfg import ENTRY
+
+        br = self._branches(func)
+        sd, su = cfg.stmt.get(d.node), cfg.stmt.get(at)
+        cd, cu = br.get(id(sd)), br.get(id(su))
+        if not cd or not cu:
+            return False
+        plain = (ast.Name, ast.Load, ast.UnaryOp, ast.Not, ast.BoolOp, ast.And, ast.Or, ast.Compare, ast.cmpop, ast.Constant)
+        for i1, p1 in cd:
+            for i2, p2 in cu:
+                if i1 is i2 or p1 == p2 or unparse(i1.test) != unparse(i2.test):
+                    continue
+                if not all(isinstance(x, plain) for x in ast.walk(i1.test)):
+                    continue
+                names = {x.id for x in ast.walk(i1.test) if isinstance(x, ast.Name)}
+                if not names:
+                    continue
+                inside = {id(x) for x in ast.walk(i1)} | {id(x) for x in ast.walk(i2)}
+                alldefs = cfg.defs()
+                kills = {n for n, xs in alldefs.items() if n != d.node and any(x.name == d.name for x in xs)}
+                sites = [n for n, xs in alldefs.items() if n != ENTRY and any(x.name in names for x in xs)]
+                if any(id(cfg.stmt.get(n)) in inside for n in sites):
+                    continue
+                if any(cfg.path_avoiding(d.node, n, kills) and cfg.path_avoiding(n, at, kills | {d.node}) for n in sites if n not in kills):
+                    continue
+                return True
+        return False
+
+    def role(self, expr: ast.expr, f: FuncInfo, depth: int = 0) -> str:
+        origins = self._origins(expr, f)
         roles = {self._role1(o, f, depth) for o in origins}
         if len(roles) == 1:
             return roles.pop()
-        return 'MIXED(' + '|'.join(sorted(roles)) + ')'
+        parts = set()
+        for r_ in roles:
+            parts |= set(r_[6:-1].split('|')) if r_.startswith('MIXED(') else {r_}
+        return 'MIXED(' + '|'.join(sorted(parts)) + ')'
+
+    def _param_role(self, name: str, f: FuncInfo, depth: int) -> str:
+        """role of a parameter: a parameter the engine slots are described by (x, hessian, ...) is its own role; a parameter
+        of a private method or of a nested function has the role of what every call site hands over, when they all agree"""
+        own = f'PARAM:{name}'
+        if own in PARAM_ROLES or depth >= 4:
+            return own
+        private = f.name.startswith('_') and not (f.name.startswith('__') and f.name.endswith('__'))
+        if not (private or f.parent is not None):
+            return own
+        roles = set()
+        for g, c in self.prog.callers_of(f.name):
+            tg = self.prog.resolve_call(g, c)
+            if f not in tg:
+                if isinstance(c.func, ast.Attribute) and not tg:
+                    return own  # a call by that name on a receiver that does not resolve: may be another call site
+                continue
+            bound = self.prog.bind_call(g, c)
+            if bound is None or name not in bound:
+                return own
+            roles.add(self.role(bound[name], g, depth + 1))
+        if len(roles) == 1:
+            r_ = roles.pop()
+            return own if r_.startswith('?') else r_
+        return own
 
     def _role1(self, e: ast.expr, f: FuncInfo, depth: int) -> str:
         t = unparse(e)
@@ -131,22 +250,26 @@ class RoleFinder:
                 if isinstance(a_, ast.Assign) and isinstance(a_.targets[0], ast.Tuple) and any(isinstance(x, ast.Name) and x.id == e.id for x in a_.targets[0].elts) and isinstance(a_.value, ast.Attribute) and depth < 4:
                     return self._role1(a_.value, f, depth + 1)
             if e.id in f.params():
-                return f'PARAM:{e.id}'
+                return self._param_role(e.id, f, depth)
             p = f.parent
             while p is not None:
                 if e.id in p.params():
-                    return f'PARAM:{e.id}'
+                    return self._param_role(e.id, p, depth)
                 p = p.parent
             return f'?{t}'
         if isinstance(e, ast.Call):
             name = call_name(e)
             if name == 'get_signature' and isinstance(e.func, ast.Attribute):
-                r = unparse(e.func.value)
-                if 'weight' in r:
-                    return 'SIG_WEIGHT'
-                if 'log_like' in r or 'loglike' in r:
-                    return 'SIG_LOGLIKE'
-                return 'SIG'
+                # which formula is serialised: read off the attribute of the object the receiver stands for, not off its spelling
+                kinds = set()
+                for r in (cfg_of(f.node).origins(e.func.value) if isinstance(e.func.value, ast.Name) else [e.func.value]):
+                    if isinstance(r, ast.Attribute) and r.attr in ('log_like', 'loglike'):
+                        kinds.add('SIG_LOGLIKE')
+                    elif isinstance(r, ast.Attribute) and r.attr == 'weight':
+                        kinds.add('SIG_WEIGHT')
+                    else:
+                        kinds.add('?SIG')
+                return kinds.pop() if len(kinds) == 1 else '?SIG'
             if name == 'beta_values_dict_to_list':
                 return 'FREE'
             if name == 'sample_with_replacement':
@@ -157,11 +280,23 @@ class RoleFinder:
                 return 'SAMPLE_SIZE'
             if name == 'values' and t.endswith('free_betas.indices.values()'):
                 return 'LITERAL_IDS'
-            if dotted(e.func) in ('np.empty', 'np.zeros', 'numpy.empty') and e.args:
-                a = e.args[0]
-                if isinstance(a, (ast.List, ast.Tuple)) and len(a.elts) == 2:
+            if dotted(e.func) in ('np.empty', 'np.zeros', 'numpy.empty', 'numpy.zeros'):
+                shape = e.args[0] if e.args else next((k.value for k in e.keywords if k.arg == 'shape'), None)
+                if shape is None:
+                    return f'?{t[:50]}'
+                dims = set()
+                for a in self._origins(shape, f):
+                    if isinstance(a, (ast.List, ast.Tuple)) and len(a.elts) in (1, 2) and not any(isinstance(x, ast.Starred) for x in a.elts):
+                        dims.add(len(a.elts))
+                    elif (isinstance(a, ast.Constant) and isinstance(a.value, int)) or (isinstance(a, ast.Call) and call_name(a) == 'len'):
+                        dims.add(1)
+                    else:
+                        dims.add(0)  # a shape the rule cannot read (a parameter, an attribute, a computed tuple)
+                if dims == {2}:
                     return 'BUF2'
-                return 'BUF1'
+                if dims == {1}:
+                    return 'BUF1'
+                return f'?BUF({unparse(shape)[:40]})'
             if name in ('array', 'asarray') and e.args:
                 return self.role(e.args[0], f, depth + 1) if depth < 4 else f'?{t}'
             if name == 'get_value' and 'missing_data' in t:
@@ -200,7 +335,10 @@ class RoleFinder:
                 if len(rs) == 1:
                     return rs.pop()
                 if rs:
-                    return 'MIXED(' + '|'.join(sorted(rs)) + ')'
+                    parts = set()
+                    for r_ in rs:
+                        parts |= set(r_[6:-1].split('|')) if r_.startswith('MIXED(') else {r_}
+                    return 'MIXED(' + '|'.join(sorted(parts)) + ')'
         return f'?{t[:50]}'
 
 
@@ -231,7 +369,8 @@ def ecc(ctx: Ctx, rule: str, only_class: str | None = None, methods: set[str] | 
         # self.theC is used by every method of the class; a local only by its function
         scope = [f0]
         if rtext.startswith('self.') and f0.cls is not None:
-            scope = list(f0.cls.methods.values())
+            # (a helper that is new and whose calls were all expanded in place is examined through its callers: sa/normal.py)
+            scope = [g for g in f0.cls.methods.values() if not getattr(g.node, '_verif_transparent', False)]
         for g in scope:
             for c in walk_no_nested(g.node):
                 if not (isinstance(c, ast.Call) and isinstance(c.func, ast.Attribute) and unparse(c.func.value) == rtext):
@@ -260,7 +399,12 @@ def ecc(ctx: Ctx, rule: str, only_class: str | None = None, methods: set[str] | 
                     want = ROLE_OF_PARAM.get(p, set())
                     parts = role[6:-1].split('|') if role.startswith('MIXED(') else [role]
                     ok = all(r_ in want for r_ in parts)
-                    known = not any(r_.startswith('?') for r_ in parts)  # an expression whose role the rule cannot tell is not an accusation
+                    # what the rule cannot tell is not an accusation: an expression without a role; a parameter that is not one
+                    # of the flags the slots are described by (what it stands for is decided by the callers); several origins
+                    # (branches the rule does not correlate) of which some have the right role
+                    known = not any(r_.startswith('?') or (r_.startswith('PARAM:') and r_ not in PARAM_ROLES) for r_ in parts)
+                    if known and not ok and any(r_ in want for r_ in parts):
+                        known = False
                     n += 1
                     ctx.add(rule, f'{construct}({p})', ok if (ok or known) else None, (g.file, c.lineno),
                             f'{m}({p}=...) receives {unparse(a)[:60]} [{role}]' + ('' if ok else (f'; the engine reads this slot as {sorted(want)}' if known else ': the role of this expression is not recognised')),
@@ -331,12 +475,148 @@ NAMES_RE = re.compile(r'^(?P<recv>.*?)\.?(?P<kind>free|fixed)_betas\.names$')
 EXPR_RE = re.compile(r'(?P<recv>[\w.]*?)\.?(?P<kind>free|fixed)_betas\.expressions')
 
 
-def _names_kind(text: str) -> tuple[str, str] | None:
-    m = NAMES_RE.match(text)
+def _own_property(cls: ClassInfo | None, attr: str) -> ast.expr | None:
+    """the expression a read-only property of the class stands for, when its body is a single `return <expr>`"""
+    g = cls.resolve(attr) if cls is not None else None
+    if g is None or 'property' not in g.decorators():
+        return None
+    body = g.body
+    if len(body) == 1 and isinstance(body[0], ast.Return) and body[0].value is not None:
+        return body[0].value
+    return None
+
+
+def _resolve(f: FuncInfo, e: ast.expr) -> ast.expr:
+    """the expression with the single-definition locals of the function replaced by their definition and the own
+    single-return properties of the class (`self.free_beta_names`) replaced by what they return"""
+    import copy
+
+    from .core import inline_locals
+
+    owner = f
+    while owner.cls is None and owner.parent is not None:
+        owner = owner.parent
+    cls = owner.cls
+
+    class Props(ast.NodeTransformer):
+        def __init__(self, d):
+            self.d = d
+
+        def visit_Attribute(self, node):
+            if isinstance(node.value, ast.Name) and node.value.id == 'self' and isinstance(node.ctx, ast.Load) and self.d > 0:
+                v = _own_property(cls, node.attr)
+                if v is not None:
+                    return Props(self.d - 1).visit(copy.deepcopy(v))
+            return self.generic_visit(node)
+
+    try:
+        e = inline_locals(f.node, e)
+    except Exception:  # noqa
+        e = copy.deepcopy(e)
+    return ast.fix_missing_locations(Props(3).visit(e))
+
+
+_TABLE_RE = re.compile(r'^(?P<recv>.*?)\.?(?P<kind>free|fixed)_betas\.expressions$')
+
+
+def _order_of(e: ast.expr) -> tuple[str, str, str] | None:
+    """In which order a (resolved) sequence of parameter names/objects runs, when the rule can tell:
+    ('names', receiver, kind): the canonical order - <receiver>.<kind>_betas.names, or sorted(<the per-kind dictionary>);
+    ('dict', receiver, kind): the order of the per-kind dictionary (appearance in the formula).  None: unknown."""
+    while isinstance(e, ast.Call) and isinstance(e.func, ast.Name) and e.func.id in ('list', 'tuple') and len(e.args) == 1 and not e.keywords:
+        e = e.args[0]
+    m = NAMES_RE.match(unparse(e))
     if m:
-        return m.group('recv'), m.group('kind')
-    if text in ('self.free_beta_names',):
-        return 'self.id_manager', 'free'
+        return 'names', m.group('recv'), m.group('kind')
+
+    def table(x):
+        if isinstance(x, ast.Call) and isinstance(x.func, ast.Attribute) and x.func.attr in ('keys', 'values', 'items') and not x.args and not x.keywords:
+            x = x.func.value
+        return _TABLE_RE.match(unparse(x))
+
+    if isinstance(e, ast.Call) and isinstance(e.func, ast.Name) and e.func.id == 'sorted' and len(e.args) == 1 and not e.keywords:
+        a = e.args[0]
+        if not (isinstance(a, ast.Call) and isinstance(a.func, ast.Attribute) and a.func.attr in ('values', 'items')):
+            m = table(a)
+            if m:
+                return 'names', m.group('recv'), m.group('kind')
+        return None
+    m = table(e)
+    if m:
+        return 'dict', m.group('recv'), m.group('kind')
+    return None
+
+
+#: consumers for which the order of what they are given does not matter (a dictionary keyed by name is not positional)
+ORDER_FREE = {'dict', 'set', 'frozenset', 'sorted', 'any', 'all', 'len', 'sum', 'min', 'max', 'Counter'}
+
+
+def _order_free_use(func: ast.AST, parents: dict, node: ast.AST) -> bool:
+    """the sequence built at `node` (a comprehension, or a loop appending to a list) is consumed without regard to its order:
+    handed directly to dict/set/sorted/..., or kept in a local that is sorted in place or only read through such consumers"""
+    def consumed(x):
+        p = parents.get(id(x))
+        return isinstance(p, ast.Call) and isinstance(p.func, ast.Name) and p.func.id in ORDER_FREE and x in p.args
+
+    local = None
+    if isinstance(node, ast.For):
+        for b in node.body:
+            for x in ast.walk(b):
+                if isinstance(x, ast.Call) and isinstance(x.func, ast.Attribute) and x.func.attr == 'append' and isinstance(x.func.value, ast.Name):
+                    local = x.func.value.id
+    else:
+        if consumed(node):
+            return True
+        p = parents.get(id(node))
+        if isinstance(p, ast.Assign) and len(p.targets) == 1 and isinstance(p.targets[0], ast.Name):
+            local = p.targets[0].id
+    if local is None:
+        return False
+    reads = []
+    for x in walk_no_nested(func):
+        if isinstance(x, ast.Name) and x.id == local and isinstance(x.ctx, ast.Load):
+            p = parents.get(id(x))
+            if isinstance(p, ast.Attribute) and p.attr == 'sort' and isinstance(parents.get(id(p)), ast.Call):
+                return True
+            if isinstance(p, ast.Attribute) and p.attr in ('append', 'extend'):
+                continue
+            reads.append(x)
+    return bool(reads) and all(consumed(x) for x in reads)
+
+
+def _none_guard(test: ast.expr, v: str) -> str | None:
+    """what a test says about the local v: 'given' (v is not None, in any spelling), 'absent' (v is None), 'truthy' / 'falsy'
+    (a truthiness test or a comparison with 0: a given 0.0 is taken for absent), None when the rule cannot classify it"""
+    def isv(e):
+        return isinstance(e, ast.Name) and e.id == v
+
+    def isnone(e):
+        return isinstance(e, ast.Constant) and e.value is None
+
+    def iszero(e):
+        return isinstance(e, ast.Constant) and isinstance(e.value, (int, float)) and not isinstance(e.value, bool) and e.value == 0
+
+    flip = {'given': 'absent', 'absent': 'given', 'truthy': 'falsy', 'falsy': 'truthy'}
+    if isinstance(test, ast.UnaryOp) and isinstance(test.op, ast.Not):
+        r = _none_guard(test.operand, v)
+        return flip.get(r)
+    if isv(test):
+        return 'truthy'
+    if isinstance(test, ast.Call) and isinstance(test.func, ast.Name) and not test.keywords:
+        if test.func.id == 'bool' and len(test.args) == 1 and isv(test.args[0]):
+            return 'truthy'
+        if test.func.id == 'isinstance' and len(test.args) == 2 and isv(test.args[0]) and unparse(test.args[1]) in ('type(None)', 'NoneType', 'types.NoneType'):
+            return 'absent'
+    if isinstance(test, ast.Compare) and len(test.ops) == 1:
+        l, r, op = test.left, test.comparators[0], test.ops[0]
+        if (isv(l) and isnone(r)) or (isnone(l) and isv(r)):
+            if isinstance(op, (ast.IsNot, ast.NotEq)):
+                return 'given'
+            if isinstance(op, (ast.Is, ast.Eq)):
+                return 'absent'
+            return None
+        if (isv(l) and iszero(r)) or (iszero(l) and isv(r)):
+            return 'falsy' if isinstance(op, (ast.Eq, ast.Is)) else 'truthy'
     return None
 
 
@@ -369,6 +649,7 @@ def ord_pack(ctx: Ctx, rule: str) -> None:
     for f in prog.all_functions():
         if f.parent is not None:
             continue
+        parents = {id(ch): pa for pa in ast.walk(f.node) for ch in ast.iter_child_nodes(pa)}
         for n, stack in _enclosing_loops(f.node):
             # O1: positional structure built from dict order of the per-kind table
             if isinstance(n, (ast.ListComp, ast.GeneratorExp)) or (isinstance(n, ast.For)):
@@ -380,6 +661,8 @@ def ord_pack(ctx: Ctx, rule: str) -> None:
                         positional = not isinstance(n, ast.For) or any(
                             isinstance(x, ast.Call) and isinstance(x.func, ast.Attribute) and x.func.attr == 'append' for b in n.body for x in ast.walk(b)
                         )
+                        if positional and _order_free_use(f.node, parents, n):
+                            positional = False  # e.g. dict((name, value) for name, beta in <table>.items()): keyed by name
                         if positional:
                             ctx.add(rule, f'{f.qualname}:appearance-order', False, (f.file, n.lineno),
                                     f'a positional sequence is built by iterating {it}: the order of a dictionary of parameters is their order of appearance in the formula, '
@@ -396,14 +679,20 @@ def ord_pack(ctx: Ctx, rule: str) -> None:
                     itx = src[1]
                     if isinstance(itx, ast.Call) and call_name(itx) == 'enumerate' and itx.args:
                         itx = itx.args[0]
-                    nk = _names_kind(unparse(itx))
                     positional = isinstance(src[2], (ast.ListComp, ast.GeneratorExp, ast.For))
-                    if not positional:
+                    if not positional or (not isinstance(src[2], ast.For) and _order_free_use(f.node, parents, src[2])):
                         continue
-                    ok = nk is not None and nk[1] == m.group('kind') and nk[0] == m.group('recv')
-                    ctx.add(rule, f'{f.qualname}:{m.group("kind")}_betas.expressions[{v}]', ok, (f.file, n.lineno),
-                            f'{t}[{v}] with {v} ranging over {unparse(src[1])}' + ('' if ok else f'; a per-parameter vector must follow {m.group("recv")}.{m.group("kind")}_betas.names'),
-                            detail=f'{t}[{v}] over {unparse(src[1])}', positive=True)
+                    # the sequence the loop variable ranges over, with locals and own properties of the class resolved
+                    od = _order_of(_resolve(f, itx))
+                    mr = re.fullmatch(r'(?P<recv>.*?)\.?(?P<kind>free|fixed)_betas\.expressions', unparse(_resolve(f, n.value))) or m
+                    ok = od == ('names', mr.group('recv'), mr.group('kind')) or _order_of(itx) == ('names', m.group('recv'), m.group('kind'))
+                    # a contradiction only when the order is known to be another one: the dictionary order, or the names of the
+                    # other kind; a sequence the rule cannot classify is not an accusation
+                    wrong = od is not None and (od[0] == 'dict' or od[2] != m.group('kind'))
+                    ctx.add(rule, f'{f.qualname}:{m.group("kind")}_betas.expressions[{v}]', ok if (ok or wrong) else None, (f.file, n.lineno),
+                            f'{t}[{v}] with {v} ranging over {unparse(src[1])}' + ('' if ok else f'; a per-parameter vector must follow {m.group("recv")}.{m.group("kind")}_betas.names' if wrong else
+                                                                                    f': the order of this sequence is not recognised (expected {m.group("recv")}.{m.group("kind")}_betas.names)'),
+                            detail=f'{t}[{v}] over {unparse(src[1])}', positive=wrong)
 
     from .pattern import body_is, find, find_expr, has, has_expr
 
@@ -421,13 +710,27 @@ def ord_pack(ctx: Ctx, rule: str) -> None:
         # the same list with holes: over which sequence it runs, and what stands for one name
         h = find(f.node, f'{target} = [__ELT for __VAR in __SEQ]') if len(ss) == 1 else None
         if h is not None:
-            seq_txt = unparse(h['__SEQ'][1])
+            seq_node = h['__SEQ'][1]
+            seq_txt = unparse(seq_node)
             elt = h['__ELT'][1]
-            if seq_txt != names_text and not isinstance(h['__SEQ'][1], ast.Name):
+            want = _order_of(ast.parse(names_text, mode='eval').body)
+            od = _order_of(_resolve(f, seq_node))
+            if od is not None and od == want:
+                # the same order under another spelling (a cached local, sorted(<the dictionary>), an own property)
+                if find(f.node, f'{target} = [{elt_pat} for _X in {seq_txt}]') is not None:
+                    ctx.add(rule, construct, True, (f.file, ss[0].lineno), f'{target} = [{what} for each name of {names_text}]')
+                    return
+            elif od is not None and want is not None and (od[0] == 'dict' or od[2] != want[2]):
+                # the order is known and is another one: the order of the dictionary, or the names of the other kind
                 ctx.add(rule, construct, False, (f.file, ss[0].lineno), f'{target} is built by going through {seq_txt}; entry k must belong to the k-th name of {names_text} (the order that defines the ids the engine uses)', seq_txt, positive=True)
                 return
             if isinstance(elt, ast.BoolOp) and isinstance(elt.op, ast.Or):
                 ctx.add(rule, construct, False, (f.file, ss[0].lineno), f'the value of a name is chosen with `{unparse(elt)[:100]}`: a value that is given but falsy (0, 0.0) is replaced by the alternative', unparse(elt), positive=True)
+                return
+            whole = _resolve(f, ss[0].value)
+            if any(isinstance(x, ast.Attribute) and isinstance(x.ctx, ast.Load) and unparse(x) == target for x in ast.walk(whole)):
+                ctx.add(rule, construct, False, (f.file, ss[0].lineno), f'the new {target} is computed from the {target} it replaces: an entry the computation does not set anew keeps what an earlier call left there, '
+                        f'not {what}', 'reads-itself', positive=True)
                 return
         ctx.add(rule, construct, None, (f.file, ss[0].lineno), f'{target} = {unparse(ss[0].value)[:120]} is not in the expected form [{what} for each name of {names_text}]', detail=unparse(ss[0].value))
 
@@ -463,22 +766,69 @@ self.elementary_expressions = ElementsTuple(expressions=None, indices=_I, names=
     ctx.add(rule, 'IdManager.prepare:free-first', ok if (ok or not_first) else None, prep, not_first if not_first else 'global numbering = position in free + fixed + random variables + draws + variables, free parameters first (the engine differentiates w.r.t. literal ids 0..n-1)' if ok else 'the global numbering no longer enumerates a concatenation that starts with the free parameters', 'free-first', positive=bool(not_first))
     eni = prog.func('expressions.idmanager', 'expressions_names_indices')
     pn = eni.positional_params()[0]
-    ok = body_is(eni.body, f"""
+    import copy
+
+    def keys_of(e):
+        """the dictionary whose keys e lists: list(d), d.keys(), list(d.keys()), [*d] -> d"""
+        while True:
+            if isinstance(e, ast.Call) and isinstance(e.func, ast.Name) and e.func.id in ('list', 'tuple') and len(e.args) == 1 and not e.keywords:
+                e = e.args[0]
+            elif isinstance(e, ast.Call) and isinstance(e.func, ast.Attribute) and e.func.attr == 'keys' and not e.args and not e.keywords:
+                e = e.func.value
+            elif isinstance(e, ast.List) and len(e.elts) == 1 and isinstance(e.elts[0], ast.Starred):
+                e = e.elts[0].value
+            else:
+                return e
+
+    def sorted_form(body):
+        """`x = list(d)` followed by `x.sort()` is `x = sorted(d)`; sorted(list(d)) / sorted(d.keys()) is sorted(d)"""
+        out = []
+        for st in body:
+            prev = out[-1] if out else None
+            if (isinstance(st, ast.Expr) and isinstance(st.value, ast.Call) and isinstance(st.value.func, ast.Attribute) and st.value.func.attr == 'sort'
+                    and not st.value.args and not st.value.keywords and isinstance(st.value.func.value, ast.Name)
+                    and isinstance(prev, ast.Assign) and len(prev.targets) == 1 and isinstance(prev.targets[0], ast.Name) and prev.targets[0].id == st.value.func.value.id):
+                new_ = copy.copy(prev)
+                new_.value = ast.copy_location(ast.Call(func=ast.Name(id='sorted', ctx=ast.Load()), args=[keys_of(prev.value)], keywords=[]), prev.value)
+                ast.fix_missing_locations(new_.value)
+                out[-1] = new_
+                continue
+            if isinstance(st, ast.Assign) and isinstance(st.value, ast.Call) and isinstance(st.value.func, ast.Name) and st.value.func.id == 'sorted' and len(st.value.args) == 1 and not st.value.keywords:
+                k = keys_of(st.value.args[0])
+                if k is not st.value.args[0]:
+                    new_ = copy.copy(st)
+                    new_.value = ast.copy_location(ast.Call(func=st.value.func, args=[k], keywords=[]), st.value)
+                    out.append(new_)
+                    continue
+            out.append(st)
+        return out
+
+    eni_body = sorted_form(eni.body)
+    eni_node = copy.copy(eni.node)
+    eni_node.body = eni_body
+    ok = body_is(eni_body, f"""
 _I = {{}}
 _N = sorted({pn})
 for _K, _V in enumerate(_N):
     _I[_V] = _K
 return ElementsTuple(expressions={pn}, indices=_I, names=_N)
-""") is not None or body_is(eni.body, f"""
+""") is not None or body_is(eni_body, f"""
 _N = sorted({pn})
 _I = {{_V: _K for _K, _V in enumerate(_N)}}
 return ElementsTuple(expressions={pn}, indices=_I, names=_N)
 """) is not None
     unsorted = None
     if not ok:
-        hb = find(eni.node, f'_N = __SRC\n___\nreturn ElementsTuple(expressions={pn}, indices=__IDX, names=_N)')
-        if hb is not None and not (isinstance(hb['__SRC'][1], ast.Call) and call_name(hb['__SRC'][1]) == 'sorted'):
-            unsorted = f'the names are {unparse(hb["__SRC"][1])}, not sorted({pn}): the canonical order of the parameters then depends on the order in which they appear in the formula'
+        hb = find(eni_node, f'_N = __SRC\n___\nreturn ElementsTuple(expressions={pn}, indices=__IDX, names=_N)')
+        if hb is not None:
+            srcx = keys_of(_resolve(eni, hb['__SRC'][1]))
+            if isinstance(srcx, ast.ListComp) and len(srcx.generators) == 1 and not srcx.generators[0].ifs and isinstance(srcx.elt, ast.Name) and unparse(srcx.elt) == unparse(srcx.generators[0].target):
+                srcx = keys_of(srcx.generators[0].iter)
+            sorted_later = any(isinstance(x, ast.Attribute) and x.attr == 'sort' and isinstance(x.value, ast.Name) and x.value.id == hb['_N'] for x in ast.walk(eni.node)) or any(
+                isinstance(x, ast.Call) and isinstance(x.func, ast.Name) and x.func.id == 'sorted' for x in ast.walk(eni.node))
+            # a contradiction only when the names are known to be the keys of the dictionary as they come and nothing sorts them
+            if isinstance(srcx, ast.Name) and srcx.id == pn and srcx is not hb['__SRC'][1] and not sorted_later:
+                unsorted = f'the names are {unparse(hb["__SRC"][1])}, not sorted({pn}): the canonical order of the parameters then depends on the order in which they appear in the formula'
     ctx.add(rule, 'expressions_names_indices', ok if (ok or unsorted) else None, eni, unsorted if unsorted else 'names are sorted and indices[name] is the position in that sorted list' if ok else 'the canonical order is no longer the sorted list of names with indices = enumerate(names)', 'sorted', positive=bool(unsorted))
     # BIOGEME sites
     B = prog.cls('biogeme', 'BIOGEME')
@@ -501,14 +851,29 @@ for _I, _N in enumerate(__SEQ):
         self.id_manager.free_betas_values[_I] = _V
 """)
         why = None
+        same = False
         if h is not None:
             sq, test = unparse(h['__SEQ'][1]), unparse(h['__TEST'][1])
-            if sq != 'self.id_manager.free_betas.names':
+            # the sequence with locals and own properties of the class resolved; the guard in any spelling of `is not None`
+            od = _order_of(_resolve(f, h['__SEQ'][1]))
+            guard = _none_guard(h['__TEST'][1], h['_V'])
+            given = _resolve(f, h['__SEQ'][1])
+            while (isinstance(given, ast.Call) and not given.keywords and ((isinstance(given.func, ast.Name) and given.func.id in ('list', 'tuple') and len(given.args) == 1)
+                                                                        or (isinstance(given.func, ast.Attribute) and given.func.attr == 'keys' and not given.args))):
+                given = given.args[0] if given.args else given.func.value
+            if isinstance(given, ast.Name) and given.id == 'betas' and 'betas' in f.params():
+                # the positions are those of the keys of the dictionary the caller gives, which the loop also looks the values up in
+                why = f'entry i of free_betas_values is given the value of the i-th key of the dictionary handed in by the caller ({sq}); the vector is indexed by the sorted names self.id_manager.free_betas.names'
+            elif od is not None and (od[0] == 'dict' or od[2] != 'free'):
                 why = f'entry i of free_betas_values is given the value of the i-th element of {sq}; the vector is indexed by the sorted names self.id_manager.free_betas.names'
-            elif test != f'{h["_V"]} is not None':
+            elif guard in ('truthy',):
                 why = f'a value is written only when `{test}`: the guard for "no value given" is `is not None`, a given value of 0.0 is otherwise skipped'
-        ctx.add(rule, 'BIOGEME.change_init_values', False if why else None, f, why or f'update of free_betas_values is not in the expected form: {unparse(loops[0])[:150] if loops else "missing"}',
-                (unparse(loops[0]) if loops else 'missing'), positive=bool(why))
+            same = od == ('names', 'self.id_manager', 'free') and guard == 'given'
+        if same:
+            ctx.add(rule, 'BIOGEME.change_init_values', True, f, 'free_betas_values[i] = betas[name] for (i, name) in enumerate(free_betas.names)')
+        else:
+            ctx.add(rule, 'BIOGEME.change_init_values', False if why else None, f, why or f'update of free_betas_values is not in the expected form: {unparse(loops[0])[:150] if loops else "missing"}',
+                    (unparse(loops[0]) if loops else 'missing'), positive=bool(why))
     f = B.methods['beta_values_dict_to_list']
     ok = has(f.node, """
 _L = []
@@ -569,9 +934,13 @@ for _B in my_betas:
         ctx.shape(rule, 'bioResults.get_beta_values', False, f, '', 'for each requested name: position = <table>.index(name); value = betas[position].value')
     else:
         tbl = unparse(b['__TABLE'][1])
-        ok = tbl == 'self.data.betaNames'
-        ctx.add(rule, 'bioResults.get_beta_values', ok, f, 'the value of a requested name is betas[betaNames.index(name)]' if ok
-                else f'the position of a requested name is looked up in {tbl}: betas follow betaNames, so the value of another parameter is returned as soon as the request is not the full sorted list', tbl, positive=True)
+        rtbl = unparse(_resolve(f, b['__TABLE'][1]))
+        ok = rtbl == 'self.data.betaNames'
+        # a contradiction: the position is looked up in the request itself (position in the request, not in betaNames)
+        wrong = not ok and rtbl == 'my_betas'
+        ctx.add(rule, 'bioResults.get_beta_values', ok if (ok or wrong) else None, f, 'the value of a requested name is betas[betaNames.index(name)]' if ok
+                else f'the position of a requested name is looked up in {tbl}: betas follow betaNames, so the value of another parameter is returned as soon as the request is not the full sorted list' if wrong
+                else f'the position of a requested name is looked up in {tbl}: not recognised as self.data.betaNames', tbl, positive=wrong)
     f = BR.methods['get_betas_for_sensitivity_analysis']
     def zipped(e):
         return isinstance(e, ast.Call) and isinstance(e.func, ast.Name) and e.func.id == 'dict' and len(e.args) == 1 and isinstance(e.args[0], ast.Call) and unparse(e.args[0].func) == 'zip'
@@ -583,39 +952,60 @@ for _B in my_betas:
         b = {}
         # rows of the whole table of draws labelled with the requested names in turn: no selection of the columns of those names
         whole = None
+        unknown_rows = None
         for pat in ('[{_N: _V for _N, _V in zip(my_betas, _ROW)} for _ROW in __M]', '[dict(zip(my_betas, _ROW)) for _ROW in __M]'):
             bw = {}
-            if m_node(_parse(pat)[0].value, c, bw) and not isinstance(bw['__M'][1], ast.Subscript):
-                whole = unparse(bw['__M'][1])
+            if m_node(_parse(pat)[0].value, c, bw):
+                mres = _resolve(f, bw['__M'][1])
+                if isinstance(mres, ast.Subscript):
+                    continue
+                # the whole table of draws: the bootstrap sample kept in the results, or the draws just generated
+                if (isinstance(mres, ast.Attribute) and mres.attr == 'bootstrap') or (isinstance(mres, ast.Call) and call_name(mres) == 'multivariate_normal'):
+                    whole = unparse(mres)
+                else:
+                    unknown_rows = unparse(bw['__M'][1])
         if whole is not None:
             verdict, det = False, f'the rows of {whole} (all parameters, in the order of betaNames) are labelled with my_betas in turn, without selecting the columns of those names: the k-th requested name receives the draw of the k-th parameter'
             break
+        if unknown_rows is not None:
+            verdict, det = None, f'rows of {unknown_rows}'
+            continue
         if zipped(c.elt):
             # the same table written dict(zip(<labels>, row)): column i of the selection gets the i-th label
             if not m_node(_parse('[dict(zip(__LABELS, _ROW)) for _ROW in __M[:, _IDX]]')[0].value, c, b):
                 verdict, det = None, unparse(c)[:160]
                 continue
-            label, ivar = unparse(b['__LABELS'][1]), None
+            label, ivar = unparse(_resolve(f, b['__LABELS'][1])), None
             if label != 'my_betas':
-                verdict, det = False, f'values of the selected columns are labelled with the names of {label} in turn; column i of the selection belongs to my_betas[i]'
-                break
+                if label == 'self.data.betaNames':
+                    verdict, det = False, f'values of the selected columns are labelled with the names of {label} in turn; column i of the selection belongs to my_betas[i]'
+                    break
+                verdict, det = None, f'labels {label}'
+                continue
         else:
             if not m_node(_parse('[{__LABEL: _V for _I, _V in enumerate(_ROW)} for _ROW in __M[:, _IDX]]')[0].value, c, b):
                 verdict, det = None, unparse(c)[:160]
                 continue
-            label = unparse(b['__LABEL'][1])
+            label = unparse(_resolve(f, b['__LABEL'][1]))
             # inside the comprehension the metavariable _I is local: recover its name from the generator
             ivar = unparse(c.elt.generators[0].target.elts[0])
         if ivar is not None and label != f'my_betas[{ivar}]':
-            verdict, det = False, f'values of the selected columns are labelled {label}; column i of the selection belongs to my_betas[i]'
-            break
+            if label == f'self.data.betaNames[{ivar}]':
+                verdict, det = False, f'values of the selected columns are labelled {label}; column i of the selection belongs to my_betas[i]'
+                break
+            verdict, det = None, f'label {label}'
+            continue
         defs = [a for a in walk_no_nested(f.node) if isinstance(a, ast.Assign) and unparse(a.targets[0]) == b['_IDX'] and seq(a) < seq(c)]
         for a in defs:
             bb = {}
             if not m_node(_parse('[__T.index(_B) for _B in my_betas]')[0].value, a.value, bb):
                 verdict, det = None, unparse(a)[:160]
-            elif unparse(bb['__T'][1]) != 'self.data.betaNames':
-                verdict, det = False, f'columns are selected through {unparse(bb["__T"][1])}.index(name); the columns of the draws follow betaNames'
+            else:
+                tres = unparse(_resolve(f, bb['__T'][1]))
+                if tres == 'my_betas':
+                    verdict, det = False, f'columns are selected through {unparse(bb["__T"][1])}.index(name): the position of the name in the request; the columns of the draws follow betaNames'
+                elif tres != 'self.data.betaNames':
+                    verdict, det = None, f'columns selected through {unparse(bb["__T"][1])}'
         if not defs:
             verdict, det = None, 'no definition of the selected columns'
     ctx.add(rule, 'bioResults.get_betas_for_sensitivity_analysis', verdict, f,
